@@ -68,6 +68,16 @@ def check_elbo(inst, env, workdir):
             es, _ = ev.estimate_evidence_lower_bound(rm.lh, smp, 2, compute_all=True, verbose=False, metric_jit=False, output_directory=None, trace_log_space="signal",
                                                      resume_eigenvectors=vecs[:, :k], resume_eigenvalues=vals[:k])
             judge("nifty.re (resumed with %d of 2 eigenpairs)" % k, es)
+        # the same in data space (the operator there is the metric minus one; the solver works on a shifted operator)
+        shutil.rmtree(d, ignore_errors=True)
+        es, _ = ev.estimate_evidence_lower_bound(rm.lh, smp, 2, compute_all=True, verbose=False, metric_jit=False, output_directory=d, trace_log_space="data")
+        judge("nifty.re (data space, saving the eigensystem)", es)
+        vals = np.load(os.path.join(d, "metric_data_eigenvalues.npy"))
+        vecs = np.load(os.path.join(d, "metric_data_eigenvectors.npy"))
+        for k in (1, 2):
+            es, _ = ev.estimate_evidence_lower_bound(rm.lh, smp, 2, compute_all=True, verbose=False, metric_jit=False, output_directory=None, trace_log_space="data",
+                                                     resume_eigenvectors=vecs[:, :k], resume_eigenvalues=vals[:k])
+            judge("nifty.re (data space, resumed with %d of 2 eigenpairs)" % k, es)
     except Exception as e:
         out.append("nifty.re save / resume raised %s: %s" % (type(e).__name__, str(e)[:140]))
     finally:
@@ -177,7 +187,9 @@ def run(ctx):
                 for msg in check_elbo(inst, env, work):
                     ctx.violation(dict(kind="elbo", which=msg.split(":")[0][:40]), "R=%s ninv=%s d=%s: %s" % (inst["R"], [lg.rv(x) for x in inst["ninv"]], inst["d"], msg), replay=dict(model=inst))
             traces, metas, bad = eig_traces(env)
-            mats = [("Dinv of %s" % m["R"], lg.mat(m["Dinv"])) for m in models[:6]] + [("diag(1..5)/2", np.diag(np.arange(1., 6.) / 2)), ("diag(3, 1/4, 7)", np.diag([3., .25, 7.]))]
+            mats = [("Dinv of %s" % m["R"], lg.mat(m["Dinv"])) for m in models[:6]] + [("diag(1..5)/2", np.diag(np.arange(1., 6.) / 2)), ("diag(3, 1/4, 7)", np.diag([3., .25, 7.])),
+                                                                                           ("diagonal, dimension 16, condition 1e6", np.diag(np.logspace(-3, 3, 16))),
+                                                                                           ("diagonal, dimension 24, condition 1e6", np.diag(np.logspace(0, 6, 24)))]
             lbad = check_lanczos(env, mats)
     finally:
         shutil.rmtree(work, ignore_errors=True)
